@@ -24,6 +24,9 @@ func (x *Exec) contractFor(fn *ssa.Function) *FuncContract {
 		return fc
 	}
 	full := FullName(o)
+	if fc, ok := x.P.CS.Externs[funcPkgPath(o)+"|"+FuncName(o)]; ok {
+		return fc
+	}
 	if fc, ok := x.P.CS.Externs[x.Pkg+"|"+full]; ok {
 		return fc
 	}
@@ -77,6 +80,7 @@ var pureExterns = map[string]bool{
 	"strings.Index": true, "strings.LastIndexByte": true, "bytes.Equal": true, "bytes.IndexByte": true,
 	"context.Background": true, "context.TODO": true, "runtime.Gosched": true,
 	"reflect.TypeOf": true, "reflect.ValueOf": true, "unicode/utf8.ValidString": true,
+	"(*runtime/trace.Task).End": true, "runtime/trace.NewTask": true,
 }
 
 func (x *Exec) isPureExtern(fn *ssa.Function) bool { return pureExterns[FullName(fn)] }
@@ -137,6 +141,9 @@ func (x *Exec) invoke(st *State, ins ssa.Instruction, c *ssa.CallCommon, fnv Val
 	default:
 		name = "dynamic"
 	}
+	if callee != nil {
+		st.Events = append(st.Events, "call:"+FuncName(originOf(callee)))
+	}
 	siteName := ""
 	if st.Frame.Fn == x.Fn && x.FC != nil && (len(x.FC.Sites) > 0 || len(x.FC.Ghosts) > 0) {
 		switch {
@@ -158,6 +165,12 @@ func (x *Exec) invoke(st *State, ins ssa.Instruction, c *ssa.CallCommon, fnv Val
 		siteName = x.siteWithOrdinal(ins, siteName)
 		x.siteBefore(st, ins, siteName, args)
 		defer func() {
+			if os.Getenv("GOVC_DEBUG") != "" {
+				fmt.Fprintf(os.Stderr, "deferred site %s frameNil=%v dead=%v\n", siteName, st.Frame == nil, st.Dead)
+			}
+			if os.Getenv("GOVC_DEBUG") != "" && st.Frame != nil {
+				fmt.Fprintf(os.Stderr, "   frame fn %s vs %s\n", st.Frame.Fn, x.Fn)
+			}
 			if st.Frame != nil && st.Frame.Fn == x.Fn && !st.Dead {
 				var rv Value
 				if res != nil {
@@ -170,9 +183,14 @@ func (x *Exec) invoke(st *State, ins ssa.Instruction, c *ssa.CallCommon, fnv Val
 	// special-cased library semantics (sync, atomic, ...)
 	if callee != nil {
 		if h, ok := specials[FullName(originOf(callee))]; ok {
-			if v, handled := h(x, st, ins, callee, args); handled {
+			prevFrame := st.Frame
+			v, handled := h(x, st, ins, callee, args)
+			if handled {
 				setRes(v)
 				return true
+			}
+			if st.Frame != prevFrame {
+				return false // the special pushed a frame (e.g. sync.Once.Do running its function)
 			}
 		}
 	}
@@ -189,6 +207,20 @@ func (x *Exec) invoke(st *State, ins ssa.Instruction, c *ssa.CallCommon, fnv Val
 		x.inlined[FullName(callee)] = true
 		x.pushFrame(st, ins, callee, args, binds, res)
 		return false
+	}
+	// interface methods assumed pure (deterministic, side-effect free): uninterpreted functions of the receiver
+	if c.IsInvoke() && fc == nil && pureMethods[c.Method.Name()] && len(args) == 1 && sig.Results().Len() == 1 {
+		recv := st.scalarTerm(args[0], c.Value.Type())
+		x.usedPureMethods[c.Method.Name()] = true
+		setRes(x.pureMethodResult(st, recv, c.Method.Name(), sig.Results().At(0).Type()))
+		return true
+	}
+	// user-supplied codecs (drpc.Encoding and friends): assumed not to touch library state
+	if c.IsInvoke() && fc == nil && codecMethods[c.Method.Name()] {
+		x.usedPureMethods["codec:"+c.Method.Name()] = true
+		setRes(x.freshResults(st, sig, "r$"+c.Method.Name()))
+		st.bumpAlloc()
+		return true
 	}
 	// havoc call
 	pure := callee != nil && x.isPureExtern(callee)
@@ -298,7 +330,9 @@ func (x *Exec) doReturn(st *State, i *ssa.Return) {
 	case *ssa.Defer, *ssa.Go:
 		caller.PC++
 	default:
-		if f.AfterDefers != nil {
+		if f.RetTo != nil {
+			*f.RetTo = rv
+		} else if f.AfterDefers != nil {
 			f.AfterDefers(st)
 		} else {
 			caller.PC++
@@ -747,6 +781,7 @@ func (x *Exec) atExit(st *State, ret *ssa.Return, vals []Value) {
 	vars := map[string]Value{}
 	for k, v := range x.ParamVals {
 		vars[k] = v
+		vars[k+"0"] = v
 	}
 	rs := x.Fn.Signature.Results()
 	for i := 0; i < rs.Len(); i++ {
@@ -905,6 +940,10 @@ func (fs *frameSpec) memMayChange(A *Arith, k string, id, j *Term) *Term {
 }
 
 func frameExempt(k string) bool {
+	// statistics counters are not part of any contract
+	if strings.Contains(k, "/drpcstats.Stats.") {
+		return true
+	}
 	return strings.HasPrefix(k, "box:") || strings.HasPrefix(k, "chan") || strings.HasPrefix(k, "map:")
 }
 
@@ -1105,7 +1144,6 @@ func (x *Exec) siteBefore(st *State, ins ssa.Instruction, name string, args []Va
 	for i, cl := range x.siteClauses("assert", name) {
 		g := x.evalBool(env, cl.Expr)
 		x.oblige(st, "site", name+":"+clauseLabel(cl, i), g, cl.Text, ins, cl.Props)
-		st.Assume(g)
 	}
 	for _, cl := range x.siteClauses("assume", name) {
 		st.Assume(x.evalBool(env, cl.Expr))
@@ -1127,6 +1165,9 @@ func (x *Exec) siteAfter(st *State, ins ssa.Instruction, name string, args []Val
 }
 
 func (x *Exec) runGhosts(st *State, env *Env, anchor string) {
+	if os.Getenv("GOVC_DEBUG") != "" {
+		fmt.Fprintf(os.Stderr, "runGhosts %s\n", anchor)
+	}
 	for _, g := range x.FC.Ghosts {
 		if g.At != anchor {
 			if i := strings.Index(anchor, "#"); i < 0 || g.At != anchor[:i] {
@@ -1209,4 +1250,69 @@ func (x *Exec) coerceSpec(st *State, v Value, t types.Type) Value {
 		}
 	}
 	return nil
+}
+
+var codecMethods = map[string]bool{"Marshal": true, "Unmarshal": true, "MarshalAppend": true, "JSONMarshal": true, "JSONUnmarshal": true}
+
+var pureMethods = map[string]bool{"Error": true, "Code": true, "Cause": true, "Unwrap": true, "String": true,
+	"Temporary": true, "Timeout": true, "Closed": true, "Unblocked": true}
+
+// pureMethodResult: the value of a pure method is an uninterpreted function of the receiver.
+func (x *Exec) pureMethodResult(st *State, recv *Term, name string, rt types.Type) Value {
+	var ls []leaf
+	flatten(rt, "", &ls)
+	ts := make([]*Term, len(ls))
+	for i, l := range ls {
+		ts[i] = App("m$"+name+l.suffix, st.leafSort(l), recv)
+	}
+	v := st.fromTerms(rt, ts)
+	st.assumeTypeInv(v, rt)
+	return v
+}
+
+// runStraight executes a branch-free function synchronously (used for getters of boxed values).
+func (x *Exec) runStraight(st *State, fn *ssa.Function, args []Value) (res Value, ok bool) {
+	if fn.Blocks == nil || len(fn.Blocks) != 1 || len(fn.Params) != len(args) {
+		return nil, false
+	}
+	for _, ins := range fn.Blocks[0].Instrs {
+		switch ins.(type) {
+		case *ssa.If, *ssa.Panic, *ssa.Go, *ssa.Defer, *ssa.Select, *ssa.MakeClosure:
+			return nil, false
+		case *ssa.Call:
+			c := ins.(*ssa.Call).Common()
+			if b, isB := c.Value.(*ssa.Builtin); isB && b.Name() == "ssa:deferstack" {
+				continue
+			}
+			if !(c.IsInvoke() && pureMethods[c.Method.Name()] && len(c.Args) == 0) {
+				return nil, false
+			}
+		}
+	}
+	caller := st.Frame
+	var out Value
+	got := false
+	var slot Value
+	nf := &Frame{Fn: fn, Regs: map[ssa.Value]Value{}, Block: fn.Blocks[0], Caller: caller, Depth: caller.Depth + 1, RetTo: &slot}
+	for i, p := range fn.Params {
+		nf.Regs[p] = args[i]
+	}
+	st.Frame = nf
+	defer func() {
+		if r := recover(); r != nil {
+			if os.Getenv("GOVC_DEBUG") != "" {
+				fmt.Fprintf(os.Stderr, "runStraight %s: %v\n", fn, r)
+			}
+			st.Frame = caller
+			res, ok = nil, false
+		}
+	}()
+	for steps := 0; st.Frame == nf && !st.Dead && steps < 200; steps++ {
+		x.step(st, nf.Block.Instrs[nf.PC])
+	}
+	if st.Frame == caller && !st.Dead {
+		out, got = slot, true
+	}
+	st.Frame = caller
+	return out, got
 }
